@@ -11,7 +11,7 @@ import (
 func init() {
 	register(&Prop{
 		ID:         "C04",
-		Decided:    "(1) the four key encoders that partition rows (GroupAggregator.Add key, CountingWindow.getKey, extractSessionCompositeKey, GlobalWindow.getKeyAndValues) produce uniquely decodable keys: every raw component framed, NULL/missing distinct from every value, no impure input (keyenc); (2) function-expression group keys are injected before the row reaches Window.Add; (3) GetResults reports the typed key values recorded for the key it iterates; (4) parser loops that track the parenthesis depth end a list item at a comma only at depth 0 (function keys with several arguments stay one key). Also: the typed key tuple stored per group holds exactly one entry per group field (nil for NULL/missing), so position i is field i.",
+		Decided:    "(1) the four key encoders that partition rows (GroupAggregator.Add key, CountingWindow.getKey, extractSessionCompositeKey, GlobalWindow.getKeyAndValues) produce uniquely decodable keys: every raw component framed, NULL/missing distinct from every value, no impure input (keyenc); (2) function-expression group keys are injected before the row reaches Window.Add; (3) GetResults reports the typed key values recorded for the key it iterates; (4) parser loops that track the parenthesis depth end a list item at a comma only at depth 0 (function keys with several arguments stay one key). Also: the typed key tuple stored per group holds exactly one entry per group field (nil for NULL/missing), so position i is field i. Also: in the clause parsers every non-error way out of a function after a token was written into the item's strings.Builder passes a read of the accumulated text (flow/accumulated-text-consumed): the last item of a clause cannot be dropped by an early return.",
 		NotDecided: "the values of function-expression keys; that cast.ToString/%v map distinct values of one scalar type to distinct strings (floats by shortest round-trip); output naming under aliases.",
 		Run:        runC04,
 	})
@@ -45,6 +45,7 @@ func init() {
 			}
 		})
 		a.Rule("shape/key-tuple-positional", 1, func() { a.ruleKeyTuplePositional() })
+		a.Rule("flow/accumulated-text-consumed", 6, func() { a.ruleAccumulatedTextConsumed() })
 		a.Rule("shape/typed-key-values", 2, func() {
 			ga := a.Named("aggregator", "GroupAggregator")
 			groups, kv := a.FieldOf(ga, "groups"), a.FieldOf(ga, "groupKeyVals")
